@@ -1,0 +1,6 @@
+//go:build verif
+
+package postprocessor
+
+// C10 safety sweep of every function of the package that has no contract of its own.
+//@ sweepall C10 idx slice div assert
